@@ -80,6 +80,8 @@ type FS struct {
 	WriteLat, ReadLat, OpenLat [2]time.Duration
 	// Hooks (world supplied).
 	OnWrite func(ev *WriteEvent) Fault
+	// ReadChunkMax > 0: File.Read returns at most a random 1..ReadChunkMax bytes (short reads).
+	ReadChunkMax int
 	// Quota: the largest file the disk takes (0 = no limit); larger truncates fail with EFBIG.
 	Quota   int64
 	OnRead  func(path string, off int64, n int) error
@@ -413,6 +415,13 @@ func (fl *File) ReadAt(p []byte, off int64) (int, error) {
 }
 
 func (fl *File) Read(p []byte) (int, error) {
+	if m := fl.fs.ReadChunkMax; m > 0 && len(p) > 1 {
+		// a sequential read may return fewer bytes than asked for
+		fl.fs.mu.Lock()
+		n := 1 + fl.fs.rng.Intn(min(m, len(p)))
+		fl.fs.mu.Unlock()
+		p = p[:n]
+	}
 	n, err := fl.ReadAt(p, fl.pos)
 	fl.pos += int64(n)
 	if n > 0 && err == io.EOF {
@@ -778,7 +787,17 @@ func (f *FS) Walk(root string, fn func(path string, info fs.FileInfo, err error)
 		}
 		return err
 	}
-	sort.Strings(entries)
+	// filepath.Walk visits the names of each directory in lexical order: compare component by
+	// component (plain string order would put "d.x" before "d/e")
+	sort.Slice(entries, func(i, j int) bool {
+		a, b := strings.Split(entries[i], "/"), strings.Split(entries[j], "/")
+		for k := 0; k < len(a) && k < len(b); k++ {
+			if a[k] != b[k] {
+				return a[k] < b[k]
+			}
+		}
+		return len(a) < len(b)
+	})
 	skip := ""
 	for _, e := range entries {
 		if skip != "" && strings.HasPrefix(e, skip) {
